@@ -658,7 +658,11 @@ func ExecutePlan(plan *Plan, p ExecuteParams) (result *Result) {
 
 	extErrs, executionFinishFn := handleExtensionsExecutionDidStart(&p)
 	if len(extErrs) != 0 {
-		return &Result{Errors: extErrs}
+		// Nothing is executed, but the extensions whose hook did return have
+		// started the phase: hand them the result the caller gets.
+		result = &Result{Errors: extErrs}
+		result.Errors = append(result.Errors, executionFinishFn(result)...)
+		return result
 	}
 	defer func() {
 		extErrs := executionFinishFn(result)
